@@ -290,8 +290,30 @@ def check_to_csv(ctx, case):
             return
 
 
+def check_realistic(ctx):
+    """README pipeline input: the bundled Minneapolis 2013 cast vote record"""
+    from votekit.cvr_loaders import load_csv
+    from .. import realistic as R
+
+    rows = R.mn_rows()
+    o = observe(load_csv, R.mn_path())
+    case = {"kind": "realistic", "file": "votekit/data/mn_2013_cast_vote_record.csv", "rows": len(rows)}
+    ctx.case(case, nontrivial=True)
+    ctx.count("realistic_rows_loaded", len(rows))
+    if not o.ok:
+        ctx.fail(f"load_csv raised {o.etype} on the bundled Minneapolis cast vote record", case, {"msg": str(o.exc)[:200]})
+        return
+    got, exp = R.profile_ms(o.value), R.expected_loaded(rows)
+    if got != exp or o.value.total_ballot_wt != len(rows) or len(o.value.ballots) != len(exp):
+        bad = [k for k in set(got) | set(exp) if got.get(k) != exp.get(k)][:3]
+        ctx.fail("load_csv on the Minneapolis cast vote record: ballots/weights differ from the row patterns of the file", case,
+                 {"total": str(o.value.total_ballot_wt), "rows": len(rows), "examples": [[str(k), str(got.get(k)), str(exp.get(k))] for k in bad]})
+
+
 def run(ctx):
     rnd = ctx.rnd
+    if ctx.shard == 0:
+        ctx.guard("realistic", check_realistic, ctx)
     try:
         for i in range(ctx.n(2200, 40000)):
             if ctx.expired():
@@ -325,6 +347,9 @@ def run(ctx):
 
 def replay(ctx, case):
     try:
-        {"csv": check_csv, "malformed": check_malformed, "scot": check_scot, "to_csv": check_to_csv}[case["kind"]](ctx, case)
+        if case["kind"] == "realistic":
+            check_realistic(ctx)
+        else:
+            {"csv": check_csv, "malformed": check_malformed, "scot": check_scot, "to_csv": check_to_csv}[case["kind"]](ctx, case)
     finally:
         shutil.rmtree(env.workdir(), ignore_errors=True)
